@@ -1803,6 +1803,26 @@ def r7_11_limits_are_type_limits(ck, P):
                 v = int(x.a[0][1])
                 if v >= 1 << (w - 1):
                     v -= 1 << w
+                # a clamp: the store happens under an ordered comparison with a constant (if (c < K) box->c = K); a constant stored
+                # unconditionally or under other tests (extents zeroed to mark the list as unchecked) is not one
+                clamp = False
+                for pb in [b for b in f.blocks if x.bb.id in b.succ]:
+                    t = pb.term
+                    if t.op != 'br' or not t.a:
+                        continue
+                    c, pr, ops = f.cond(t.a[0])
+                    if c is not None and c.op == 'icmp' and pr in ('slt', 'sgt', 'sle', 'sge'):
+                        for o in ops:
+                            if o[0] != 'c':
+                                continue
+                            ww = int(o[2]) if len(o) > 2 else 32
+                            kk = int(o[1]) & ((1 << w) - 1)
+                            if kk >= 1 << (w - 1):
+                                kk -= 1 << w
+                            if kk == v:
+                                clamp = True          # if (coordinate < K) field = K
+                if not clamp:
+                    continue
                 vals.setdefault((w, v), x)
             if not vals:
                 ck.incomplete(R, '%s/%s: no clamp store found' % (u.name, fn)); continue
@@ -2053,3 +2073,73 @@ def r5_13_box_difference_keeps_its_width(ck, P, rid='C05-R13'):
 
 def deadcmp_width(t):
     return int(t[1:]) if t and t.startswith('i') and t[1:].isdigit() else None
+
+
+def r6_12_clamped_boxes_revalidated(ck, P, rid='C06-R12'):
+    """T-ORD (must-pass-through): a rectangle of the list that has been clamped to a coordinate limit may have become identical in x to the
+    band above or below it; canonical form is restored only by the validation pass, so every path from such a clamp to the return of the
+    function goes through it."""
+    R = ck.rule(rid, 'in the translate functions, every path from a store that clamps a coordinate of a rectangle of the list (not the extents) to the region minimum / maximum to the return of the function passes through a call of validate: clamping can make stacked bands identical in x, and only the validation pass coalesces them, which equal() and the canonical form rely on', floor=8)
+    n = 0
+    for u in units(P):
+        w = _w(u)
+        limv = {-(1 << 31), (1 << 31) - 1} if w == '32' else {-(1 << 15), (1 << 15) - 1}
+        for f in u.functions.values():
+            if not f.name.endswith('_translate'):
+                continue
+            for x in f.insts():
+                if x.op != 'store' or x.a[0][0] != 'c' or int(x.a[0][1]) not in limv:
+                    continue
+                fl = f.fields_of(f.path(x.a[1]))
+                if not fl or not fl[-1].startswith('pixman_box') or any(q.endswith('.extents') for q in fl):
+                    continue
+                n += 1; ck.saw(f)
+                def exempt_edge(b, s_):
+                    """leaving towards the return because at most one rectangle is left (nothing to coalesce)"""
+                    t = f.blocks[b].term
+                    if t.op != 'br' or not t.a:
+                        return False
+                    c, p, ops = f.cond(t.a[0])
+                    if c is None:
+                        return False
+                    zs = [f.v(f.strip_casts(o)) for o in ops]
+                    lfs = [f.last_field(f.path(z.a[0])) if z is not None and z.op == 'load' else None for z in zs]
+                    taken = t.d['succ'][0] == s_
+                    if any(l and l.endswith('.numRects') for l in lfs) and c.op == 'icmp':
+                        k = [int(o[1]) for o in ops if o[0] == 'c']
+                        if k and p in ('sgt', 'sge', 'slt', 'sle', 'ugt', 'uge', 'ult', 'ule'):
+                            more = {'sgt': k[0] >= 1, 'ugt': k[0] >= 1, 'sge': k[0] >= 2, 'uge': k[0] >= 2}.get(p)
+                            if more and not taken:
+                                return True            # not (numRects > 1)
+                            less = {'slt': k[0] <= 2, 'ult': k[0] <= 2, 'sle': k[0] <= 1, 'ule': k[0] <= 1}.get(p)
+                            if less and taken:
+                                return True
+                    if any(l and l.endswith('.data') for l in lfs) and any(o[0] == 'n' or (o[0] == 'c' and int(o[1]) == 0) for o in ops):
+                        if (p in ('eq', 'not')) == taken:
+                            return True                # data == NULL: a single rectangle
+                    return False
+                hit = None
+                seen = set(); work = []
+                idx = x.bb.insts.index(x)
+                if not any(y.op == 'call' and y.callee == 'validate' for y in x.bb.insts[idx + 1:]):
+                    work = [(x.bb.id, s_) for s_ in x.bb.succ]
+                    if x.bb.term.op == 'ret':
+                        hit = x.bb.term
+                while work and hit is None:
+                    b, nb = work.pop()
+                    if (b, nb) in seen or exempt_edge(b, nb):
+                        continue
+                    seen.add((b, nb))
+                    blk = f.blocks[nb]
+                    if any(y.op == 'call' and y.callee == 'validate' for y in blk.insts):
+                        continue
+                    if blk.term.op == 'ret':
+                        hit = blk.term; break
+                    work.extend((nb, s_) for s_ in blk.succ)
+                where = '%s (%s): clamp of %s at %s' % (f.name, w, fl[-1], x.loc())
+                if hit is None:
+                    ck.ok(R, where, 'validate on every path to the return')
+                else:
+                    ck.violation(R, f.name, 'clamped rectangle not re-validated (%s)' % w, '%s clamps %s of a rectangle of the list to the coordinate limit at %s and can return without running the list through validate: two stacked bands that have become identical in x stay two rectangles, so the region is not canonical and not equal() to the same set of points built otherwise' % (f.name, fl[-1].split('.')[-1], x.loc()), x.loc())
+    if n == 0:
+        raise AnalysisBroken('%s: no clamp of a list rectangle to the coordinate limits found in translate' % rid)
